@@ -15,7 +15,7 @@
 EXTENDS ObsPrelude
 
 Exact == {"Periodogram", "pcorrelogram", "pcovar", "pmodcovar", "pmusic", "pev"}
-OneBin == {"pburg", "pyule", "parma", "pminvar"}
+OneBin == {"pburg", "pyule", "parma", "pminvar", "pburg:AIC", "pburg:MDL"}
 
 \* circular distance between bins a and b on an n-point grid
 CircDist(a, b, n) == LET d == (a - b) % n IN Min(d, n - d)
